@@ -143,6 +143,35 @@ class LoopMixin:
             if isinstance(itv, SOptRef):
                 return self.branch(s, itv.t != 0, lambda s_: got_iter(s_, SRef(itv.t, itv.inner)),
                                    lambda s_: self.raise_new(s_, "TypeError"), "optional-iter")
+            try:
+                _ou, _lcu = self.loop_contract(fr, n)
+            except EngineError:
+                _lcu = {}
+            if _lcu.get("unroll") and isinstance(itv, SRef) and itv.kind.startswith("list:"):
+                # a loop over a list of statically known length (e.g. the two middlewares of the default stack): executed
+                # iteration by iteration instead of being cut at an invariant; that the length is as declared is an obligation
+                cnt = int(_lcu["unroll"])
+                self.oblige(s, "type", "unroll-length", self.list_len(s, itv) == cnt, f"the contract unrolls this loop {cnt} times")
+                s.assume(self.list_len(s, itv) == cnt)
+                n0u, e0u = self.list_len(s, itv), self.list_elems(s, itv)
+                eku = itv.kind[5:]
+
+                def gou(i, s2):
+                    if i == cnt:
+                        return k(s2)
+                    def body(s3):
+                        outs = self.ex(n.body, s3, fr, lambda s4: [(s4, "iterend", None)])
+                        res = []
+                        for (s4, kind, p) in outs:
+                            if kind in ("iterend", "continue"):
+                                res += gou(i + 1, s4)
+                            elif kind == "break":
+                                res += k(s4)
+                            else:
+                                res.append((s4, kind, p))
+                        return res
+                    return self.assign(n.target, self._wf(s2, from_sort(eku, z3.Select(e0u, i))), s2, fr, body)
+                return gou(0, s)
             setup = self.iter_setup(n, itv, s, fr)
             if setup is None:
                 # constant sequence: unroll
